@@ -35,13 +35,66 @@ func AddOneShot(d stdtime.Duration, f func()) (stop func() bool) {
 	return func() bool { return stopTimer(tm) }
 }
 
+// afStub is the goroutine of a time.AfterFunc callback.  The runtime orders the callback after the
+// call that armed the timer and after nothing else; a goroutine started by whichever task happens
+// to run the scheduler when the timer fires would instead inherit that task's history (an edge too
+// many for the race gate) and miss the arming task's.  So the go statement is issued by the arming
+// task, the goroutine parks, and it becomes a task of the scheduler only when the timer fires (task
+// ids, and with them the canonical schedule, are those of a task created at that moment).
+type afStub struct {
+	gate      gate
+	t         *Task
+	f         func()
+	cancelled bool
+	started   bool
+	exited    chan struct{}
+}
+
+func afterFuncStub(s *Sched, st *afStub) {
+	st.gate.wait()
+	if st.cancelled {
+		close(st.exited)
+		return
+	}
+	taskMain(s, st.t, st.f)
+}
+
+func fireStub(s *Sched, st *afStub, name string) {
+	if st.cancelled || st.started {
+		return
+	}
+	t := s.newTask(name)
+	t.guard = alwaysTrue
+	t.op = "start"
+	st.t, st.started = t, true
+	st.gate.wake()
+}
+
+func cancelStub(st *afStub) {
+	if st.started || st.cancelled {
+		return
+	}
+	st.cancelled = true
+	st.gate.wake()
+}
+
 func AfterFuncSpawn(d stdtime.Duration, f func()) (stop func() bool) {
 	s := S
 	if s == nil || s.abort {
 		return func() bool { return false }
 	}
 	name := "AfterFunc:" + callerSite(2)
-	return AddOneShot(d, func() { s.spawn(name, f) })
+	st := &afStub{gate: newGate(), f: f, exited: make(chan struct{})}
+	s.stubs = append(s.stubs, st)
+	go afterFuncStub(s, st)
+	tm := s.addTimer(d, 0, func() { fireStub(s, st, name) }, nil)
+	return func() bool {
+		was := stopTimer(tm)
+		if was {
+			cancelStub(st)
+		}
+		return was
+	}
 }
 
 func Sleep(d stdtime.Duration) {
